@@ -93,7 +93,8 @@ class RaggedArray(IndexableArray, np.lib.mixins.NDArrayOperatorsMixin):
         if shape is None:
             data, shape = self._from_array_list(data, dtype)
         elif isinstance(shape, (ViewBase, RaggedView2)):
-            shape = shape
+            if isinstance(shape, RaggedShape) and safe_mode and not shape.size == len(data):
+                raise ValueError(f"The total size of provided shape {shape.size} does not match the size of the data array: {len(data)}")
         else:
             shape = RaggedShape.asshape(shape)
             if not shape.size == len(data) and safe_mode:
@@ -248,7 +249,7 @@ class RaggedArray(IndexableArray, np.lib.mixins.NDArrayOperatorsMixin):
             dtype = self.dtype
         data = self._shape.broadcast_values(values, dtype=dtype)
         assert data.dtype == dtype, (values.dtype, data.dtype, dtype)
-        return RaggedArray(data, self._shape)
+        return RaggedArray(data, self._shape, safe_mode=False)  # a single value stays unexpanded
 
     def _reduce(self, ufunc, ra, axis=0, **kwargs):
         assert axis in (
